@@ -12,7 +12,9 @@ EXTENDS Naturals, Sequences, FiniteSets, TLC, Json
 CONSTANTS Kinds, Probes, MaxHist, ResetFields
 Fields == {"params", "locals", "viewbind", "flash", "bind", "redirect", "resphdr", "route", "baseuri"}
 \* which context fields a request of a kind writes; "flashpartial"/"flashtrunc" decode INTO the slots that are there
-Writes(k) == CASE k = "params" -> {"params", "route"} [] k = "locals" -> {"locals"} [] k = "viewbind" -> {"viewbind"}
+\* ("sendfilemaxage" fills the application's SendFile handler store, which is keyed by the call's configuration and is not a
+\* context field: the probe "sendfile" uses another configuration and must not see its Cache-Control)
+Writes(k) == CASE k \in {"params", "optparam"} -> {"params", "route"} [] k = "locals" -> {"locals"} [] k = "viewbind" -> {"viewbind"}
                [] k = "redirectwith" -> {"redirect", "resphdr"} [] k = "withinput" -> {"redirect", "bind", "resphdr"}
                [] k \in {"flashfull", "flashpartial", "flashtrunc"} -> {"flash"} [] k \in {"bindquery", "bindauto"} -> {"bind"}
                [] k = "resphdr" -> {"resphdr"} [] k = "baseurl" -> {"baseuri"} [] OTHER -> {"route"}
